@@ -24,6 +24,7 @@ import (
 
 	"github.com/vimeo/dials/parse"
 	"github.com/vimeo/dials/sources/flag/flaghelper"
+	"github.com/vimeo/dials/transform"
 	"pgregory.net/rapid"
 
 	"verifharness/internal/vrt"
@@ -154,9 +155,11 @@ type C15Pair struct {
 }
 
 type C15CollCase struct {
-	// strslice | strset | mapss | mapsss | intslice | typedslice
+	// strslice | strset | mapss | mapsss | intslice | typedslice | namedstr
 	Kind string `json:"kind"`
-	// element type of intslice / typedslice
+	// element type of intslice / typedslice; for namedstr the user-defined
+	// shape: []Label, Names, Labels (slices, from Strs), map[Label]Label,
+	// LabelMap (maps, from Pairs with one value each)
 	Elem string `json:"elem,omitempty"`
 	// use a nil collection rather than an empty one when there is nothing in it
 	Nil   bool      `json:"nil,omitempty"`
@@ -166,7 +169,7 @@ type C15CollCase struct {
 }
 
 var (
-	collKinds       = []string{"typedslice", "typedslice", "intslice", "intslice", "mapsss", "mapsss", "mapss", "mapss", "strset", "strslice", "strslice"}
+	collKinds       = []string{"typedslice", "typedslice", "namedstr", "namedstr", "intslice", "intslice", "mapsss", "mapsss", "mapss", "mapss", "strset", "strslice", "strslice"}
 	intTypeNames    = typeNames(func(ti *typeInfo) bool { return ti.isInteger() })
 	typedElemNames  = typeNames(func(ti *typeInfo) bool { return !ti.sliceOnly && ti.class != "string" })
 	nonEmptyHostile = func() []string {
@@ -179,6 +182,47 @@ var (
 		return out
 	}()
 )
+
+// User-defined string-kind types, as a config struct would declare them.
+// They reach parse.String through the string-casting mangler (env source);
+// no flag helper is registered for them, so their canonical text is the one
+// the helpers print for the same data as []string / map[string]string.
+type (
+	c15Label    string
+	c15Names    []string
+	c15Labels   []c15Label
+	c15LabelMap map[string]string
+)
+
+var (
+	namedShapes = map[string]reflect.Type{
+		"[]Label":          reflect.TypeOf([]c15Label{}),
+		"Names":            reflect.TypeOf(c15Names{}),
+		"Labels":           reflect.TypeOf(c15Labels{}),
+		"map[Label]Label":  reflect.TypeOf(map[c15Label]c15Label{}),
+		"LabelMap":         reflect.TypeOf(c15LabelMap{}),
+		"map[string]Label": reflect.TypeOf(map[string]c15Label{}),
+	}
+	namedShapeNames = []string{"[]Label", "Names", "Labels", "[]Label", "Names", "Labels", "map[Label]Label", "LabelMap", "map[string]Label"}
+)
+
+// castVia runs the string-casting mangler the way the env source's
+// transformer does for a field of type ft (a slice/map type or a
+// user-declared pointer to one) and returns the slice/map.
+func castVia(text string, ft reflect.Type) (reflect.Value, error) {
+	sf := reflect.StructField{Name: "F", Type: ft}
+	v, err := (&transform.StringCastingMangler{}).Unmangle(sf, []transform.FieldValueTuple{{Field: sf, Value: reflect.ValueOf(&text)}})
+	if err != nil {
+		return v, err
+	}
+	if ft.Kind() == reflect.Ptr {
+		if !v.IsValid() || v.Kind() != reflect.Ptr || v.IsNil() {
+			return reflect.Value{}, fmt.Errorf("harness: Unmangle returned %v for %s", v, ft)
+		}
+		return v.Elem(), nil
+	}
+	return v, nil
+}
 
 func genSize(t *rapid.T, label string) int {
 	if rapid.IntRange(0, 9).Draw(t, label+"_big") == 0 {
@@ -214,6 +258,17 @@ func genC15Coll(t *rapid.T) C15CollCase {
 		}
 	case "strset":
 		c.Strs = genDistinctStrings(t, n, "s", true)
+	case "namedstr":
+		c.Elem = rapid.SampledFrom(namedShapeNames).Draw(t, "shape")
+		if namedShapes[c.Elem].Kind() == reflect.Slice {
+			for i := 0; i < n; i++ {
+				c.Strs = append(c.Strs, QS(genString(t, "s")))
+			}
+		} else {
+			for _, k := range genDistinctStrings(t, n, "k", true) {
+				c.Pairs = append(c.Pairs, C15Pair{K: k, Vs: []QS{QS(genString(t, "v"))}})
+			}
+		}
 	case "mapss", "mapsss":
 		// The empty key is drawn separately (own label): see map-empty-key.
 		keys := genDistinctStrings(t, n, "k", false)
@@ -440,6 +495,64 @@ func runC15Coll(c C15CollCase) vrt.Verdict {
 				return reflect.ValueOf(f.Get()), nil
 			}},
 		}
+	case "namedstr":
+		T := namedShapes[c.Elem]
+		if T == nil {
+			return vrt.Discardf("unknown named shape")
+		}
+		lset["shape="+c.Elem] = true
+		var wantV reflect.Value
+		if T.Kind() == reflect.Slice {
+			if len(c.Pairs) > 0 {
+				return vrt.Discardf("slice shape takes strs")
+			}
+			ss := toStrings(c.Strs)
+			size = len(ss)
+			wantV = reflect.MakeSlice(T, len(ss), len(ss))
+			for i, s := range ss {
+				note(s)
+				wantV.Index(i).SetString(s)
+			}
+			if len(ss) == 0 && !c.Nil {
+				ss = []string{}
+			}
+			text = flaghelper.NewStringSliceFlag(&ss).String()
+		} else {
+			if len(c.Strs) > 0 {
+				return vrt.Discardf("map shape takes pairs")
+			}
+			var m map[string]string
+			if len(c.Pairs) > 0 || !c.Nil {
+				m = map[string]string{}
+			}
+			wantV = reflect.MakeMap(T)
+			for _, p := range c.Pairs {
+				if _, dup := m[string(p.K)]; dup {
+					return vrt.Discardf("duplicate map key")
+				}
+				if len(p.Vs) != 1 {
+					return vrt.Discardf("map entry needs exactly one value")
+				}
+				m[string(p.K)] = string(p.Vs[0])
+				note(string(p.K))
+				note(string(p.Vs[0]))
+				if p.K == "" {
+					hasEmptyKey = true
+				}
+				k, v := reflect.New(T.Key()).Elem(), reflect.New(T.Elem()).Elem()
+				k.SetString(string(p.K))
+				v.SetString(string(p.Vs[0]))
+				wantV.SetMapIndex(k, v)
+			}
+			size = len(c.Pairs)
+			text = flaghelper.NewMapStringStringFlag(&m).String()
+		}
+		want = wantV.Interface()
+		routes = []route{
+			{"parse.String(" + T.String() + ")", func(s string) (reflect.Value, error) { return parse.String(s, T) }},
+			{"StringCastingMangler.Unmangle(" + T.String() + ")", func(s string) (reflect.Value, error) { return castVia(s, T) }},
+			{"StringCastingMangler.Unmangle(*" + T.String() + ")", func(s string) (reflect.Value, error) { return castVia(s, reflect.PointerTo(T)) }},
+		}
 	case "intslice", "typedslice":
 		ti = typeByName[c.Elem]
 		if ti == nil {
@@ -529,16 +642,20 @@ func runC15Coll(c C15CollCase) vrt.Verdict {
 func TestC15Collections(t *testing.T) {
 	vrt.Check(t, vrt.Prop[C15CollCase]{
 		ID: propID, Name: "collections", NoJournal: true,
-		Rule: "a []string, string set, map[string]string, map[string][]string, integral slice of any of the 11 element types, or a typed slice of any scalar type, of 0..24 elements (nil or empty when 0); " +
-			"strings come from rapid's full string generator, raw bytes (invalid UTF-8), a list of hostile constants (empty, comma, colon, quotes, backslash, NUL, blanks, non-ASCII, broken UTF-8) and concatenations of them; " +
-			"the canonical text is the String() of the flag helper the flag source registers for the type (strconv text joined by commas for typed slices); " +
-			"oracle: every entry point (parse.StringSlice/StringSet/Map/StringStringSliceMap/Signed-/UnsignedIntegralSlice, parse.String with the Go type, and Set+Get on a fresh flag helper) returns the value, empty==nil; " +
+		Rule: "a []string, string set, map[string]string, map[string][]string, integral slice of any of the 11 element types, a typed slice of any scalar type, or a user-defined string-kind collection " +
+			"([]Label with type Label string, type Names []string, type Labels []Label, map[Label]Label, type LabelMap map[string]string, map[string]Label), of 0..24 elements (nil or empty when 0); " +
+			"strings come from rapid's full string generator, raw bytes (invalid UTF-8), a list of hostile constants (empty, comma, colon, quotes, backslash, NUL, blanks, non-ASCII, broken UTF-8), concatenations of them, " +
+			"and strings that begin / end with or consist only of blanks (every rune strings.TrimSpace removes: space, tab, LF, CR, VT, FF, NEL, NBSP, em space, ideographic space), which only the quoting protects; " +
+			"the canonical text is the String() of the flag helper the flag source registers for the type (strconv text joined by commas for typed slices; for the user-defined shapes the helper text of the same data as []string / map[string]string); " +
+			"oracle: every entry point (parse.StringSlice/StringSet/Map/StringStringSliceMap/Signed-/UnsignedIntegralSlice, parse.String with the Go type, Set+Get on a fresh flag helper, and for the user-defined shapes " +
+			"StringCastingMangler.Unmangle with the type and with a user-declared pointer to it, as the env source casts) returns the value with exactly the requested type, empty==nil; " +
 			"non-trivial = at least 2 elements and some string needs quoting (empty or a byte outside [A-Za-z0-9_]) / some number is a min, max, denormal, Inf, NaN or -0; distinct = distinct collections",
 		Assumptions: []string{
 			"map[string][]string entries with an empty slice are excluded by construction: MapStringStringSliceFlag.String prints one key:value pair per slice element, so such an entry prints nothing and has no text form",
 			"the empty map key is drawn by a separate 1-in-16 choice (label empty-key) so that its known rejection (map-empty-key) does not mask other keys",
 			"set members and map keys are distinct by construction (the parsers reject duplicates by design)",
 			"[]uintptr is parsed only by the integral-slice helper; parse.String does not support the kind",
+			"user-defined string-kind collections have no flag helper (the flag source skips them); they are cast by parse.String from the env source, and their canonical text is taken to be the quoted form the helpers print for []string / map[string]string",
 			"NaN elements compare equal to any NaN",
 		},
 		Gen: genC15Coll, Run: runC15Coll,
@@ -594,16 +711,6 @@ const (
 	scannerBlanks = " \t\n\r"
 	trimBlanks    = " \t\n\r\v\f\u0085\u00a0\u2003\u3000"
 )
-
-func genBlanks(t *rapid.T, set string, label string) string {
-	rs := []rune(set)
-	n := rapid.IntRange(0, 3).Draw(t, label+"_n")
-	var b strings.Builder
-	for i := 0; i < n; i++ {
-		b.WriteRune(rapid.SampledFrom(rs).Draw(t, label))
-	}
-	return b.String()
-}
 
 func onlyRunesOf(s, set string) bool {
 	for _, r := range s {
